@@ -182,6 +182,12 @@ OpSpace ==
                 i \in LcShapes, j \in {1, 2, 3}}
         ELSE {})
 
+\* The polynomial / commitment / state lists handed to batch_open, open_combinations and their verifiers are
+\* keyed by label: the order in which the caller lists them carries no meaning.  `perm` = 0: ascending labels
+\* on both sides; 1: the prover's lists reversed; 2: the verifier's commitment list reversed; 3: both.
+ListOrders == IF Mode \in {"C01", "C11"} /\ MaxPolys >= 2 THEN {0, 1, 2, 3} ELSE {0}
+OpSpaceP == {o @@ [perm |-> p] : o \in OpSpace, p \in ListOrders} \ {o @@ [perm |-> p] : o \in {x \in OpSpace : x.kind = "open"}, p \in {1, 2, 3}}
+
 \* --------------------------------------------------------------------------
 \* honest artefacts
 BoundOf(p) == IF EnforcesBounds(S) THEN p.bound ELSE NONE
@@ -340,8 +346,11 @@ SameBound(a, b) == a = b \/ (S = "sonic" /\ {a, b} \subseteq {NONE, pp.maxdeg})
 PlansC04(st) ==
   \* made under d', labelled d
   {Plan("relabel", "not_accept", <<[M("relabel_bound") EXCEPT !.l = ld[1], !.d = ld[2]]>>) :
-      ld \in {x \in BoundedLabels \X (BoundSet(keys) \cup (IF S = "ipa" THEN 1..EffSup(S, keys) ELSE {})) :
-                 ~SameBound(x[2], polys[x[1]].bound) /\ x[2] >= DegOf(polys[x[1]])}}
+      \* every other label: enforced bounds, and for Marlin / Sonic also the bounds the keys were NOT trimmed
+      \* for (in between and above the enforced ones): an unsupported label must be an error, not a look-up
+      \* of a neighbouring bound
+      ld \in {x \in BoundedLabels \X (IF S = "ipa" THEN 1..EffSup(S, keys) ELSE 1..pp.maxdeg) :
+                 ~SameBound(x[2], polys[x[1]].bound) /\ (x[2] >= DegOf(polys[x[1]]) \/ x[2] \notin BoundSet(keys))}}
   \* the degree-bound part dropped / randomised: for a polynomial that contributes to the proof
   \* (for an unblinded constant, "no bound" is a true statement and the proof is trivial)
   \cup {Plan("drop_shifted", "not_accept", <<[M(lk[2]) EXCEPT !.l = lk[1]]>>) :
@@ -718,7 +727,7 @@ Commit ==
 Open ==
   /\ pc = "open"
   /\ Len(ops) < MaxOps
-  /\ \E o \in OpSpace :
+  /\ \E o \in OpSpaceP :
        LET c == OpenClassOf(o)
            r == Prove(o, spP, Len(ops) + 1) IN
        /\ ops' = Append(ops, [o EXCEPT !.labels = o.labels] @@ [cls |-> c])
@@ -791,8 +800,11 @@ TypeOK == pc \in {"setup", "trim", "commit", "open", "adv", "check", "done"}
 EventShape(e) == IF e[1] = 1 THEN (IF Len(e) = 1 THEN "S" ELSE "F") ELSE IF e[1] = 2 THEN "A" ELSE "I"
 ShapeOf(ev) == [i \in DOMAIN ev |-> EventShape(ev[i])]
 ExpClass(c) == Expect(c)
+RevOrder == [i \in 1..MaxPolys |-> MaxPolys + 1 - i]
 OpJson(o) == [kind |-> o.kind, labels |-> o.labels, pt |-> o.pt,
-              qs |-> SortTuples(o.qs), lcs |-> o.lcs]
+              qs |-> SortTuples(o.qs), lcs |-> o.lcs,
+              pperm |-> IF o.perm \in {1, 3} THEN RevOrder ELSE <<>>,
+              vperm |-> IF o.perm \in {2, 3} THEN RevOrder ELSE <<>>]
 Behaviour ==
   [prop |-> Mode, scheme |-> S, tag |-> advname,
    max_degree |-> pp.maxdeg, num_vars |-> pp.nv, wf |-> pp.wf,
